@@ -1,10 +1,43 @@
 import CotengraVerif.Lemmas.SoundRun
+import CotengraVerif.Lemmas.SortOK
 import CotengraVerif.Model.Recipes
 
 /-!
 # C01 — contracting with any tree gives the einsum value, in the declared axis order
 
-(work in progress: `admissible_sound` first)
+## What is modelled (files of /repo, commit of the run)
+
+* `Model/Net.lean` (shared): `compute_leaf_legs`, `get_legs`, `get_involved` (core.py:743-833).
+* `Model/Recipes.lean`: `get_inds`, `get_can_dot`, `get_tensordot_axes`, `get_tensordot_perm`,
+  `get_einsum_eq` (core.py:850-921), the preprocessing equation (`inputs_output_to_eq`,
+  utils.py:1235), `extract_contractions` (contract.py:576-636), `sort_contraction_indices`
+  (core.py:2920-3004, model only – see below).
+* `Model/Program.lean`: the program, its interpreter `run` = `Contractor.__call__`
+  (contract.py:757-805 without exponent stripping), the certificate checker `Admissible`.
+* `Model/Tensor.lean`: functional arrays, `einsum1`, `einsum2`, `tensordot`, `transpose`
+  (the model of numpy / autoray – trusted, validated on integers by the harness), the nested
+  finite sum `sumOver`, and `Net.einsumSpec` – the mathematical einsum.
+
+## What is proved (all for every network, tree, order, option, array size; no bound)
+
+* `admissible_sound` – a program accepted by `Admissible` runs without raising on well-shaped
+  arrays over any commutative semiring and returns the einsum of the network, axes = declared
+  output in the declared order (einsum, tensordot(+perm) and preprocessing steps).
+* `model_extract_admissible(_inds)` – the model's own extraction is `Admissible` for every
+  network satisfying the guards, every complete tree, every children-first order, both
+  `prefer_einsum` values and every admissible table of per-node index orders (the default one
+  of `get_inds` is admissible: `inds_ok`).
+* `model_extract_admissible_sorted` – in particular for the table that the model of
+  `sort_contraction_indices` leaves behind, for every processing order (`priority`) and both
+  flags (`sortInds_ok`).
+* `model_contract_correct` – soundness and extraction combined: C01 for the model.
+* `run_order_irrelevant` – any two children-first orders (and recipe choices) yield the same
+  array (same shape, same entry at every position).
+
+## Not modelled / not proved
+
+`strip_exponent`, `autojit`, cuquantum, slicing drivers (`contract` loops over slices: C06),
+floating point.
 -/
 namespace Cotengra.C01
 open Cotengra Cotengra.Net
@@ -119,5 +152,140 @@ theorem admissible_sound (n : Net) (rm : List Ix) (t : BT) (prog : Program)
       rw [hc]
   · cases ha
 
+/-- positional form: every entry of the result, addressed by a position of the right length -/
+theorem IsEinsum.at_pos {n : Net} {rm : List Ix} {arrays : List (Arr R)} {res : Arr R}
+    (h : IsEinsum n rm arrays res) (hnd : (n.outRm rm).Nodup) (idx : List Nat)
+    (hl : idx.length = (n.outRm rm).length) :
+    res.val idx = n.einsumSpec rm (operands arrays) (assoc ((n.outRm rm).zip idx)) := by
+  rw [← h.2]
+  congr 1
+  symm
+  apply map_assoc_zip _ _ hl.symm
+  intro p hp q hq e
+  obtain ⟨i, hi, rfl⟩ := List.mem_iff_getElem.1 hp
+  obtain ⟨j, hj, rfl⟩ := List.mem_iff_getElem.1 hq
+  simp only [List.getElem_zip] at e ⊢
+  have : i = j := (List.Nodup.getElem_inj_iff hnd).1 e
+  subst this
+  rfl
+
+/-- **`model_extract_admissible_inds`.**  For every network satisfying the guards of the real
+    code, every complete tree, every children-first traversal, both values of `prefer_einsum`
+    and every table of per-node index orders that orders each inner node's legs (what
+    `sort_contraction_indices` may leave behind), the model's extraction is `Admissible`. -/
+theorem model_extract_admissible_inds (n : Net) (rm : List Ix) (t : BT) (I : BT → List Ix)
+    (order : List BT) (preferEinsum : Bool) (hN : 2 ≤ n.inputs.length) (hc : Complete n t)
+    (G : Guards n) (hI : IndsOK n rm t I) (ho : ChildrenFirst t order) :
+    Admissible n rm t (extractWith n rm I order preferEinsum) = true :=
+  extractWith_admissible n rm t I order preferEinsum hN hc G hI ho
+
+/-- **`model_extract_admissible`.**  The same for the default index orders of `get_inds`. -/
+theorem model_extract_admissible (n : Net) (rm : List Ix) (t : BT) (order : List BT)
+    (preferEinsum : Bool) (hN : 2 ≤ n.inputs.length) (hc : Complete n t) (G : Guards n)
+    (ho : ChildrenFirst t order) :
+    Admissible n rm t (extract n rm order preferEinsum) = true :=
+  extractWith_admissible n rm t _ order preferEinsum hN hc G (inds_ok n rm t hN hc) ho
+
+/-- **`model_extract_admissible_sorted`.**  The same after the model of
+    `sort_contraction_indices(priority, make_output_contig, make_contracted_contig)`, for every
+    processing order `proc` over nodes of the tree. -/
+theorem model_extract_admissible_sorted (n : Net) (rm : List Ix) (t : BT) (order proc : List BT)
+    (preferEinsum outputContig contractedContig : Bool) (hN : 2 ≤ n.inputs.length)
+    (hc : Complete n t) (G : Guards n) (ho : ChildrenFirst t order)
+    (hp : ∀ p ∈ proc, p ∈ t.internal) :
+    Admissible n rm t
+      (extractWith n rm (sortInds n rm outputContig contractedContig proc) order preferEinsum)
+        = true :=
+  extractWith_admissible n rm t _ order preferEinsum hN hc G
+    (sortInds_ok n rm t outputContig contractedContig proc hN hc (fun p h => by
+      have := (C03.internal_leaves_sublist t p (hp p h)).length_le
+      rw [complete_length n t hc] at this
+      exact this)) ho
+
+/-- **C01 for the model**: contracting well-shaped arrays through any complete tree, in any
+    children-first order, with either recipe preference and any admissible index-order table,
+    returns the einsum of the network in the declared axis order. -/
+theorem model_contract_correct (n : Net) (rm : List Ix) (t : BT) (I : BT → List Ix)
+    (order : List BT) (preferEinsum : Bool) (arrays : List (Arr R))
+    (hN : 2 ≤ n.inputs.length) (hc : Complete n t) (G : Guards n) (hI : IndsOK n rm t I)
+    (ho : ChildrenFirst t order) (hw : WellShaped n rm arrays) :
+    ∃ res, run (extractWith n rm I order preferEinsum) arrays = .ok res ∧
+      IsEinsum n rm arrays res :=
+  admissible_sound n rm t _ arrays hw
+    (model_extract_admissible_inds n rm t I order preferEinsum hN hc G hI ho)
+
+/-- **`run_order_irrelevant`.**  Two admissible programs for the same network (in particular
+    the extractions along any two children-first orders, with any recipe preference and any
+    admissible index-order tables) run to the same array: same shape, same entry everywhere. -/
+theorem run_order_irrelevant (n : Net) (rm : List Ix) (t₁ t₂ : BT) (p₁ p₂ : Program)
+    (arrays : List (Arr R)) (hw : WellShaped n rm arrays)
+    (h₁ : Admissible n rm t₁ p₁ = true) (h₂ : Admissible n rm t₂ p₂ = true) :
+    ∃ r₁ r₂, run p₁ arrays = .ok r₁ ∧ run p₂ arrays = .ok r₂ ∧ r₁.shape = r₂.shape ∧
+      ∀ σ : Ix → Nat, r₁.val ((n.outRm rm).map σ) = r₂.val ((n.outRm rm).map σ) := by
+  obtain ⟨r₁, hr₁, hs₁, hv₁⟩ := admissible_sound n rm t₁ p₁ arrays hw h₁
+  obtain ⟨r₂, hr₂, hs₂, hv₂⟩ := admissible_sound n rm t₂ p₂ arrays hw h₂
+  exact ⟨r₁, r₂, hr₁, hr₂, hs₁.trans hs₂.symm, fun σ => (hv₁ σ).trans (hv₂ σ).symm⟩
+
+/-- the model-level instance: any two children-first orders of the same tree -/
+theorem run_order_irrelevant_model (n : Net) (rm : List Ix) (t : BT) (I : BT → List Ix)
+    (o₁ o₂ : List BT) (pe₁ pe₂ : Bool) (arrays : List (Arr R))
+    (hN : 2 ≤ n.inputs.length) (hc : Complete n t) (G : Guards n) (hI : IndsOK n rm t I)
+    (h₁ : ChildrenFirst t o₁) (h₂ : ChildrenFirst t o₂) (hw : WellShaped n rm arrays) :
+    ∃ r₁ r₂, run (extractWith n rm I o₁ pe₁) arrays = .ok r₁ ∧
+      run (extractWith n rm I o₂ pe₂) arrays = .ok r₂ ∧ r₁.shape = r₂.shape ∧
+      ∀ σ : Ix → Nat, r₁.val ((n.outRm rm).map σ) = r₂.val ((n.outRm rm).map σ) :=
+  run_order_irrelevant n rm t t _ _ arrays hw
+    (model_extract_admissible_inds n rm t I o₁ pe₁ hN hc G hI h₁)
+    (model_extract_admissible_inds n rm t I o₂ pe₂ hN hc G hI h₂)
+
 end
+
+/-! ## non-vacuity: a 4-tensor network with a hyper index (4), a repeated index (2), a
+    size-1 dimension (3), a dangling index (5) and two output indices -/
+
+def exNet : Net :=
+  { inputs := [[0, 1], [1, 2, 4], [2, 2, 3, 4], [4, 5]], output := [4, 0],
+    sizes := [(0, 2), (1, 3), (2, 2), (3, 1), (4, 2), (5, 3)] }
+def exTree : BT := .node (.node (.leaf 0) (.leaf 1)) (.node (.leaf 2) (.leaf 3))
+/-- a second children-first order: right subtree first -/
+def exOrder₂ : List BT :=
+  [.node (.leaf 2) (.leaf 3), .node (.leaf 0) (.leaf 1), exTree]
+
+example : 2 ≤ exNet.inputs.length := by decide
+example : Complete exNet exTree := by unfold Complete; decide
+example : Guards exNet := ⟨by decide, by decide⟩
+example : ChildrenFirst exTree exTree.internal := childrenFirst_internal exTree
+example : ChildrenFirst exTree exOrder₂ := by
+  refine ⟨List.Perm.swap _ _ _, ?_⟩
+  have p1 : (exTree.leaves.map BT.leaf).Perm [BT.leaf 2, BT.leaf 3, BT.leaf 0, BT.leaf 1] :=
+    List.perm_append_comm (l₁ := [BT.leaf 0, BT.leaf 1]) (l₂ := [BT.leaf 2, BT.leaf 3])
+  have p2 : [BT.node (.leaf 2) (.leaf 3), BT.leaf 0, BT.leaf 1].Perm
+      [BT.leaf 0, BT.leaf 1, BT.node (.leaf 2) (.leaf 3)] :=
+    List.perm_append_comm (l₁ := [BT.node (.leaf 2) (.leaf 3)]) (l₂ := [BT.leaf 0, BT.leaf 1])
+  exact Sched.step p1 (Sched.step p2 (Sched.step (List.Perm.refl _) (Sched.nil (List.Perm.refl _))))
+/-- the checker accepts the model's programs for this network (both recipe preferences, two
+    orders) – an instance of `model_extract_admissible`, here by evaluation -/
+example : Admissible exNet [] exTree (extract exNet [] exTree.internal false) = true := by decide
+example : Admissible exNet [] exTree (extract exNet [] exOrder₂ true) = true := by decide
+/-- the program does contain a preprocessing step, a tensordot step and an einsum step -/
+example : (extract exNet [] exTree.internal false).pre.length = 2 ∧
+    (extract exNet [] exTree.internal false).steps.map (fun s => match s.recipe with
+      | .tdot .. => true | .einsum .. => false) = [true, false, false] := by decide
+/-- the checker is not trivially true: the same program with the two output labels of the last
+    equation exchanged (root axes in the wrong order) is rejected … -/
+example : Admissible exNet [] exTree
+    { (extract exNet [] exTree.internal true) with
+      steps := (extract exNet [] exTree.internal true).steps.map fun s =>
+        match s.recipe with
+        | .einsum a b o => if s.parent.length == 4 then { s with recipe := .einsum a b o.reverse } else s
+        | _ => s } = false := by decide
+/-- … and so is the program whose first step also sums the hyper index 4, which is still
+    needed by tensors 2 and 3 and by the output -/
+example : Admissible exNet [] exTree
+    { (extract exNet [] exTree.internal true) with
+      steps := (extract exNet [] exTree.internal true).steps.map fun s =>
+        match s.recipe with
+        | .einsum a b o => if s.parent.length == 2 then { s with recipe := .einsum a b (o.take 1) } else s
+        | _ => s } = false := by decide
+
 end Cotengra.C01
